@@ -466,7 +466,20 @@ type nameType struct {
 var srcTags []string
 var srcBlacks, srcEvents []nameType
 
+var frozenWrapped []string
+
 func loadSourceLists(verif string) {
+	if data, err := os.ReadFile(filepath.Join(verif, "grammar", "xss_wrapped.txt")); err == nil {
+		for _, ln := range strings.Split(string(data), "\n") {
+			ln = strings.TrimSpace(ln)
+			if ln == "" || strings.HasPrefix(ln, "#") {
+				continue
+			}
+			if b, err := hex.DecodeString(ln); err == nil {
+				frozenWrapped = append(frozenWrapped, string(b))
+			}
+		}
+	}
 	data, err := os.ReadFile(filepath.Join(verif, "build", "tables.txt"))
 	if err != nil {
 		return
@@ -604,6 +617,10 @@ func grammarXSSStream(r *rng, tier string) *inputSet {
 	s := newInputSet()
 	var core []string
 	xssCore(func(stream, v string) { s.add("core-"+stream, v); core = append(core, v) })
+	// the frozen wrapped-vector family of C04e (grammar/xss_wrapped.txt)
+	for _, v := range frozenWrapped {
+		s.add("frozen-wrapped", v)
+	}
 	// the extended family of C04d (further break-out prefixes), all of it
 	xssExt(func(stream, v string) { s.add("ext-"+stream, v); core = append(core, v) })
 	n := 20000
